@@ -4,6 +4,7 @@ mod mqtt;
 mod opts;
 mod session;
 mod sim;
+mod threads;
 mod wire;
 
 use rand::rngs::StdRng;
@@ -142,6 +143,7 @@ fn real_main() -> i32 {
         "chunk" => families::chunk(&a),
         "fuzz" => families::fuzz(&a),
         "endings" => families::endings(&a),
+        "threads" => threads::threads(&a),
         "wiretx" => wire::wiretx(&a),
         "wirerx" => wire::wirerx(&a),
         "disccmp" => families::disccmp(&a),
